@@ -18,7 +18,9 @@ func init() {
 			if h := analyseHandle4(c); h != nil {
 				reportDispatch(c, "C11.V4.DISPATCH", h.di)
 				ruleSentIsChainResult(c, "C11.V4.SENT-IS-CHAIN-RESULT", h.fn, h.di)
+				rulePostChainRO(c, "C11.V4.POST-CHAIN-RO", h.fn, h.di)
 			}
+			c.R.Floor("C11.V4.POST-CHAIN-RO", 1)
 			c.R.Floor("C11.V4.RECV-WHOLE", 1)
 			c.R.Floor("C11.CHAIN.SHARED", 2)
 			c.R.Floor("C11.V4.FILTER", 3)
@@ -36,11 +38,15 @@ func init() {
 		Run: func(c *Ctx) {
 			ruleV6(c, "C12.")
 			ruleRecvWhole(c, "C12.V6.RECV-WHOLE", "*listener6")
+			ruleAddrListener(c, "C12.V6.LISTENER") // the pinning decision reads l.Interface: it is the zone's interface, or per-packet information is enabled
 			ruleChainShared(c, "C12.CHAIN.SHARED") // the reply is what the configured plugins made of the stub: nothing else sits in the listener's chain
 			if h := analyseHandle6(c); h != nil {
 				reportDispatch(c, "C12.V6.DISPATCH", h.di)
 				ruleSentIsChainResult(c, "C12.V6.SENT-IS-CHAIN-RESULT", h.fn, h.di)
+				rulePostChainRO(c, "C12.V6.POST-CHAIN-RO", h.fn, h.di)
 			}
+			c.R.Floor("C12.V6.POST-CHAIN-RO", 1)
+			c.R.Floor("C12.V6.LISTENER", 2)
 			c.R.Floor("C12.V6.RECV-WHOLE", 1)
 			c.R.Floor("C12.CHAIN.SHARED", 2)
 			c.R.Floor("C12.V6.TYPEMAP", 11)
@@ -70,6 +76,9 @@ func init() {
 			}
 			ruleChainShared(c, "C13.CHAIN.SHARED")
 			ruleRetNil(c, "C13.CHAIN.RETNIL", ro)
+			// "a nil response means nothing is sent": no handler may return a nil pointer boxed in the
+			// DHCPv6 interface (the dispatcher's resp == nil test does not see it)
+			runSafety(c, "C13.RET.", ro.AllHandlers(), nil, "NILSRC")
 			// "a plugin without a setup for the protocol is skipped": the loader and whatever wraps the
 			// registered setups never call an absent (nil) setup function
 			if lp := c.P.Func("plugins", "", "LoadPlugins"); lp != nil {
@@ -116,8 +125,12 @@ func init() {
 		Assume:  []string{"wire encoding of options (codec)", "value equality with the arguments beyond provenance is not decided"},
 		Run: func(c *Ctx) {
 			rulePoolRetain(c, "C17.POOL.NO-RETAIN") // an emitted option must not share storage that is recycled
-			ruleChainLoad(c, "C17.CHAIN.LOAD")      // the configured values reach the plugin: every setup is called with its own item's arguments
+			ruleArgsImmutable(c, "C17.CFG.ARGS-RO")
+			ruleParseOrder(c, "C17.CHAIN.PARSE-ORDER") // ... split into arguments exactly as written (strings.Fields of the item's value)
+			ruleChainLoad(c, "C17.CHAIN.LOAD")         // the configured values reach the plugin: every setup is called with its own item's arguments
 			ruleOptions(c, "C17.")
+			c.R.Floor("C17.CFG.ARGS-RO", 1)
+			c.R.Floor("C17.CHAIN.PARSE-ORDER", 1)
 			c.R.Floor("C17.OPT.EMPTY-LIST", 4)
 			c.R.Floor("C17.POOL.NO-RETAIN", 2)
 			c.R.Floor("C17.CHAIN.LOAD", 2)
@@ -137,9 +150,11 @@ func init() {
 			ruleAddrCascade(c, "C15.")
 			ruleAddrL2(c, "C15.ADDR.L2")
 			ruleAddrListener(c, "C15.ADDR.LISTENER")
+			ruleV4IdentityRO(c, "C15.ADDR.INPUTS-RO") // giaddr, ciaddr and the flags the cascade reads are the request's own: nothing rewrites them before the cascade
 			if h := analyseHandle4(c); h != nil {
 				runSafety(c, "C15.", []*ssa.Function{h.fn}, nil, "NILPATH", "NILSRC")
 			}
+			c.R.Floor("C15.ADDR.INPUTS-RO", 3)
 			c.R.Floor("C15.ADDR.CASCADE", 7)
 			c.R.Floor("C15.ADDR.PIN", 2)
 			c.R.Floor("C15.ADDR.L2", 7)
